@@ -529,5 +529,77 @@ class RepeatedText(Part):
         return res
 
 
+class LogLevels(Part):
+    name = "output_under_every_log_level"
+    desc = ("the whole line alphabet (every terminator) under every feature subset with the root logger / --log-level at DEBUG, "
+            "INFO, WARNING, ERROR, CRITICAL, stream API and command line: the bytes written do not depend on what is logged")
+
+    LEVELS = ["DEBUG", "INFO", "WARNING", "ERROR", "CRITICAL"]
+
+    def __init__(self, tier, seed):
+        self.tier, self.seed = tier, seed
+
+    def cases(self):
+        return [{"F": F, "entry": e} for F in feature_sets() if not F["undo"] for e in ("stream", "main")
+                if not (e == "main" and not any(F[k] for k in ("pwd", "ip", "word", "as")))]
+
+    def _run(self, F, entry, level, text, root, tag):
+        import logging
+
+        from netconan.netconan import main
+
+        if entry == "stream":
+            with seams.capture_logs(getattr(logging, level)):
+                fa = make(F)
+                out = io.StringIO()
+                fa.anonymize_io(io.StringIO(text, newline=""), out)
+            return out.getvalue().encode("utf-8")
+        ind, outd = os.path.join(root, tag, "in"), os.path.join(root, tag, "out")
+        seams.write_tree(ind, {"a.cfg": text.encode("utf-8")})
+        argv = ["-i", ind, "-o", outd, "-s", "saltForTest", "-l", level, "--preserve-addresses", "10.200.0.0/16"]
+        argv += ["-p"] if F["pwd"] else []
+        argv += ["-a"] if F["ip"] else []
+        argv += ["-w", ",".join(WORDS)] if F["word"] else []
+        argv += ["-n", ",".join(ASNS)] if F["as"] else []
+        with seams.capture_logs(), seams.capture_stdio():
+            main(argv)
+        seams.restore_globals()
+        return seams.read_tree(outd).get("a.cfg")
+
+    def run(self, case):
+        res = Res()
+        F = case["F"]
+        root = seams.scratch_dir("c12l")
+        try:
+            for tname, term, final in TERMS:
+                text = "".join(a[0] + term for a in ALPHABET if final or a[0] != "")
+                if not final:
+                    text = text[: -len(term)]
+                outs = {}
+                for level in self.LEVELS:
+                    res.evals += 1
+                    try:
+                        outs[level] = self._run(F, case["entry"], level, text, root, "%s-%s" % (tname, level))
+                    except Exception as e:
+                        res.violation("exception:" + type(e).__name__ + "|log-level", "F=%r level %s: %r" % (F, level, e), case)
+                        outs[level] = None
+                    res.nt((tuple(sorted(k for k in F if F[k])), case["entry"], tname, level))
+                for level in self.LEVELS:
+                    res.out(outs[level] == outs["INFO"])
+                    if outs[level] != outs["INFO"]:
+                        a, b = outs[level] or b"", outs["INFO"] or b""
+                        i = 0
+                        while i < min(len(a), len(b)) and a[i] == b[i]:
+                            i += 1
+                        res.violation("output-depends-on-the-log-level|%s" % case["entry"],
+                                      "features %s, terminator %s: at %s the output differs from the one at INFO from byte %d: %r vs %r" % (
+                                          "+".join(k for k in F if F[k]) or "none", tname, level, i, a[max(0, i - 20): i + 30], b[max(0, i - 20): i + 30]), case)
+                        break
+            res.samples.append({"features": F, "entry": case["entry"], "levels": self.LEVELS})
+        finally:
+            shutil.rmtree(root, ignore_errors=True)
+        return res
+
+
 def parts(tier, seed):
-    return [TextsPart(tier, seed), PlainFilesPart(tier, seed), RepeatedText(tier, seed)]
+    return [TextsPart(tier, seed), PlainFilesPart(tier, seed), RepeatedText(tier, seed), LogLevels(tier, seed)]
